@@ -305,7 +305,7 @@ def run_replay(rp):
         # whose exception is it?  innermost frame that is neither stdlib nor site-packages decides
         owner = "harness"
         for fs in reversed(traceback.extract_tb(e.__traceback__)):
-            if fs.filename.startswith("/repo/"):
+            if fs.filename.startswith(core.REPO_DIR + "/"):
                 owner = "asimap"
                 break
             if fs.filename.startswith(core.VERIF_DIR):
